@@ -626,7 +626,7 @@ func ZZVerifC07() {
 	if thorough {
 		maxEvents, maxReqs = 7, 3
 	}
-	budget := 100 * gotime.Second
+	budget := 200 * gotime.Second
 	if thorough {
 		budget = 18 * gotime.Minute
 	}
